@@ -27,7 +27,12 @@ Anchors ==
       mid == {<<h * ((TransBAM[k] + TransBAM[k + 1]) \div 2), 100 + k>> : k \in 2..58, h \in {1, -1}}
       sp == {<<0, 200>>, <<Pole - 8, 201>>, <<-Pole + 8, 202>>, <<3 * 46603, 203>>, <<-2 * 46603, 204>>,
              <<46603 * 52, 205>>, <<-46603 * 33, 206>>}
-  IN  {x \in tr \cup mid \cup sp : x[2] % Stride = Phase \/ x[2] \in {2, 3, 59} \/ x[2] >= 200} \cup {<<x - Pole, 300>> : x \in SeedLats}
+  IN  \* every NL transition is always an anchor; the thinning by Stride / Phase applies to what is explored around it (Full)
+      tr \cup {x \in mid \cup sp : x[2] % Stride = Phase \/ x[2] >= 200} \cup {<<x - Pole, 300>> : x \in SeedLats}
+
+\* anchors explored with every offset / longitude / displacement; the other transitions get the lattice points next to them
+\* (offsets -1, 0, 1 BAM), three longitudes and no displacement
+Full(tag) == tag % Stride = Phase \/ tag \in {2, 3, 59} \/ tag >= 200
 
 InRange(a) == a >= -Pole /\ a <= Pole
 
@@ -52,14 +57,15 @@ Next ==
      /\ \E an \in Anchors : c' = [ph |-> "anchor", a |-> an[1], tag |-> an[2]]
   \/ /\ c.ph = "anchor"
      /\ \E d \in DLat, o \in Lons(c.a), dp \in Disp :
-          LET a0 == c.a + d
-              a1 == a0 + dp[1]
-              o1 == WrapLon(o + dp[2])
-          IN  /\ InRange(a0) /\ InRange(a1)
-              /\ c' = [ph |-> "case", a0 |-> a0, o0 |-> o, a1 |-> a1, o1 |-> o1,
-                       e0 |-> Encode(Kind, a0, o, 0), e1 |-> Encode(Kind, a1, o1, 1),
-                       s0 |-> IF Mode = "local" THEN Encode("surf", a0, o, 0) ELSE <<>>,
-                       s1 |-> IF Mode = "local" THEN Encode("surf", a1, o1, 1) ELSE <<>>]
+          /\ (Full(c.tag) \/ (d \in {-1, 0, 1} /\ dp = <<0, 0>> /\ o \in {0, Half - 3} \cup SeedLons))
+          /\ LET a0 == c.a + d
+                 a1 == a0 + dp[1]
+                 o1 == WrapLon(o + dp[2])
+             IN  /\ InRange(a0) /\ InRange(a1)
+                 /\ c' = [ph |-> "case", a0 |-> a0, o0 |-> o, a1 |-> a1, o1 |-> o1,
+                          e0 |-> Encode(Kind, a0, o, 0), e1 |-> Encode(Kind, a1, o1, 1),
+                          s0 |-> IF Mode = "local" THEN Encode("surf", a0, o, 0) ELSE <<>>,
+                          s1 |-> IF Mode = "local" THEN Encode("surf", a1, o1, 1) ELSE <<>>]
 
 (* ---- C03: airborne global decode ---- *)
 AirCase(evenNewest) ==
